@@ -1,4 +1,5 @@
 import PenneModel.Mut.Model
+import PenneModel.Types.AgreeLemmas
 /-
   C08 — only vars and explicitly passed pointers can be mutated.  Property theorems.
 -/
